@@ -232,7 +232,7 @@ def du_of(body):
 
 
 # ---------------------------------------------------------------------- term utilities
-def walk(t):
+def walk(t, captures=True):
     """pre-order traversal over all sub-terms"""
     stack = [t]
     while stack:
@@ -254,7 +254,8 @@ def walk(t):
         elif k in ("tuple", "array", "phi"):
             stack.extend(x[1])
         elif k == "closure":
-            stack.extend(x[2])
+            if captures:
+                stack.extend(x[2])
         elif k == "binop":
             stack.append(x[2])
             stack.append(x[3])
@@ -379,12 +380,15 @@ def fmt(t, depth=6):
 
 
 def subst(t, mapping):
-    """replace ('param', i, ..) leaves by mapping[i] (terms of the caller's arguments)"""
+    """replace ('param', i, ..) leaves by mapping[i] (terms of the caller's arguments); keys ('upvar', i) replace the
+    closure's captured variables"""
     if not isinstance(t, tuple) or not t:
         return t
     k = t[0]
     if k == "param":
         return mapping.get(t[1], t)
+    if k == "upvar":
+        return mapping.get(("upvar", t[1]), t)
     if k in ("ref", "deref", "promoted"):
         return (k, subst(t[1], mapping))
     if k == "field":
